@@ -453,6 +453,75 @@ def _constant_template(e: ast.AST) -> bool:
   return False
 
 
+def _fp_handler_ok(body) -> bool:
+  """Path walk over the handler of grpc.RpcError: every path on which the status code is FAILED_PRECONDITION returns
+  an empty list, every other path raises (tests on the code are followed through locals; any other test is taken to
+  be independent of the code)."""
+  import copy as _copy
+
+  def fp_test(t, env):
+    """(is a test of the code, polarity) — polarity True when the test is true exactly for FAILED_PRECONDITION."""
+    neg = False
+    while True:
+      if isinstance(t, ast.UnaryOp) and isinstance(t.op, ast.Not):
+        t, neg = t.operand, not neg
+      elif isinstance(t, ast.Name) and t.id in env:
+        t = env[t.id]
+      else:
+        break
+    if isinstance(t, ast.Compare) and len(t.ops) == 1 and isinstance(t.ops[0], (ast.Eq, ast.NotEq, ast.Is, ast.IsNot)):
+      sides = [t.left, t.comparators[0]]
+      is_fp = [isinstance(x, ast.Attribute) and x.attr == 'FAILED_PRECONDITION' for x in sides]
+      is_code = [isinstance(x, ast.Call) and isinstance(x.func, ast.Attribute) and x.func.attr == 'code' for x in sides]
+      if (is_fp[0] and is_code[1]) or (is_fp[1] and is_code[0]):
+        pol = isinstance(t.ops[0], (ast.Eq, ast.Is))
+        return True, pol != neg
+    return False, None
+
+  outcomes = []  # (fp: True/False/None, terminal)
+
+  def walk(stmts, env, fp):
+    for i, st in enumerate(stmts):
+      if isinstance(st, ast.Assign) and len(st.targets) == 1 and isinstance(st.targets[0], ast.Name):
+        env = dict(env)
+        env[st.targets[0].id] = st.value
+      elif isinstance(st, ast.If):
+        is_code, pol = fp_test(st.test, env)
+        rest = stmts[i + 1:]
+        if is_code:
+          for branch, val in ((st.body, pol), (st.orelse, not pol)):
+            if fp is not None and fp != val:
+              continue
+            walk(list(branch) + rest, env, val)
+        else:
+          walk(list(st.body) + rest, env, fp)
+          walk(list(st.orelse) + rest, env, fp)
+        return
+      elif isinstance(st, ast.Return):
+        empty = isinstance(st.value, (ast.List, ast.Tuple)) and not st.value.elts
+        outcomes.append((fp, 'empty' if empty else 'return'))
+        return
+      elif isinstance(st, ast.Raise):
+        outcomes.append((fp, 'raise'))
+        return
+      elif isinstance(st, (ast.Expr, ast.Pass, ast.AnnAssign, ast.AugAssign, ast.Assign)):
+        continue
+      else:
+        outcomes.append((fp, 'unknown'))
+        return
+    outcomes.append((fp, 'fallthrough'))
+
+  walk(list(body), {}, None)
+  if not any(fp is True and t == 'empty' for fp, t in outcomes):
+    return False
+  for fp, t in outcomes:
+    if fp is True and t != 'empty':
+      return False
+    if fp is not True and t != 'raise':
+      return False
+  return True
+
+
 def _short(n: cfgmod.Node) -> str:
   """Stable short name of the construct at a node (for finding keys)."""
   a = n.ast
@@ -525,12 +594,7 @@ def r3_client(ctx) -> None:
     names = ctx.lattice.handler_names(fi.module, h.ast)
     if 'grpc.RpcError' not in names:
       continue
-    body = h.ast.body
-    has_fp = any(isinstance(x, ast.Attribute) and x.attr == 'FAILED_PRECONDITION' for st in body for x in ast.walk(st))
-    ret_empty = any(isinstance(x, ast.Return) and isinstance(x.value, ast.List) and not x.value.elts
-                    for st in body for x in ast.walk(st))
-    reraises = isinstance(body[-1], ast.Raise)
-    good = has_fp and ret_empty and reraises
+    good = _fp_handler_ok(h.ast.body)
   ctx.check(good, 'R3', 'get_suggestions: FAILED_PRECONDITION -> []', fi.node,
             'immutable study maps to an empty list, every other RpcError is re-raised',
             'RpcError handling of SuggestTrials does not map FAILED_PRECONDITION to [] and re-raise the rest',
